@@ -711,17 +711,29 @@ def spec_check(lib, v, toks, chain_texts=None):
             bad.append(("C05:nan-likelihood", "reported likelihood is nan although the variant can be evaluated "
                         "(candidates %r)" % C, nll, "a number"))
         return bad
-    allzero = all(x == 0 for x in params[:n])
-    D = {i for i in range(n) if params[i] == 0 and pp[i] != 0}
-    if allzero and cl == 0 and set(range(n)) - {i for i in range(n) if pp[i] == 0} <= set(C):
-        D = set(range(n))                      # every parameter dropped: k = 0
     for i in range(n):
-        if i not in D and not rel(params[i], float(pp[i])):
+        if params[i] != 0 and not rel(params[i], float(pp[i])):
             bad.append(("C05:parameters", "parameter %d is %r, the transformation of the unique's parameters gives %s" % (
                 i, params[i], mpmath.nstr(pp[i], 12)), params[:n], [float(x) for x in pp]))
             return bad
     if any(x != 0 for x in params[n:]):
         bad.append(("C05:parameters", "padding is not zero", params, "zeros beyond the parameters"))
+        return bad
+    D0 = {i for i in range(n) if params[i] == 0 and pp[i] != 0}
+    Z = [i for i in range(n) if pp[i] == 0]          # exactly zero already: dropping them is not observable in the parameters
+    options = []
+    for mask in range(2 ** len(Z)):
+        options.append(D0 | {Z[b] for b in range(len(Z)) if mask >> b & 1})
+    results = [check_dropped(D, v, n, C, pp, Fd, nll, unll, cl, params, tbl, rel, texts) for D in options]
+    if any(not r for r in results):
+        return bad
+    return bad + results[0]
+
+
+def check_dropped(D, v, n, C, pp, Fd, nll, unll, cl, params, tbl, rel, texts):
+    """the row read as 'the parameters in D were dropped'"""
+    import mpmath
+    bad = []
     if not D <= set(C):
         bad.append(("C05:dropped-not-candidate", "dropped parameters %r are not all below one precision step (candidates %r)" % (sorted(D), C),
                     sorted(D), C))
@@ -746,7 +758,9 @@ def spec_check(lib, v, toks, chain_texts=None):
             return bad
     # code length from the transferred curvatures
     kept = [i for i in range(n) if i not in D]
-    if D or not C:
+    if len(D) == n:
+        want = 0.0
+    elif D or not C:
         if any(pp[i] == 0 for i in kept):
             want = None
         else:
